@@ -17,9 +17,11 @@ namespace yakushima {
 class epoch_manager {
 public:
     static void epoch_thread() {
+        YK_VERIF(k_note, nullptr, f_epoch_thread, 1);
         for (;;) {
             sleepMs(YAKUSHIMA_EPOCH_TIME);
             for (;;) {
+                YK_VERIF(k_load, nullptr, f_epoch, 0);
                 Epoch cur_epoch = epoch_management::get_epoch();
                 bool verify{true};
                 for (auto&& elem : thread_info_table::get_thread_info_table()) {
@@ -36,8 +38,10 @@ public:
                  * When the calculation process in this loop is executed,
                  * there is no way to escape from the loop, so the following line is required.
                  */
+                YK_VERIF(k_load, nullptr, f_thread_end_flag, 0);
                 if (kEpochThreadEnd.load(std::memory_order_acquire)) break;
             }
+            YK_VERIF(k_rmw, nullptr, f_epoch, 1);
             epoch_management::epoch_inc();
 
             /**
@@ -56,17 +60,21 @@ public:
             if (min_epoch != UINT64_MAX) {
                 garbage_collection::set_gc_epoch(min_epoch - 1);
             } else {
+                YK_VERIF(k_load, nullptr, f_epoch, 0);
                 garbage_collection::set_gc_epoch(epoch_management::get_epoch() -
                                                  1);
             }
+            YK_VERIF(k_load, nullptr, f_thread_end_flag, 0);
             if (kEpochThreadEnd.load(std::memory_order_acquire)) { break; }
         }
     }
 
     static void gc_thread() {
+        YK_VERIF(k_note, nullptr, f_gc_thread, 1);
         for (;;) {
             sleepMs(YAKUSHIMA_EPOCH_TIME);
             thread_info_table::gc();
+            YK_VERIF(k_load, nullptr, f_thread_end_flag, 1);
             if (kGCThreadEnd.load(std::memory_order_acquire)) { break; }
         }
     }
